@@ -244,7 +244,8 @@ fn replacement(n: &Node, fam: &str, arg: u64, src: &[u8], others: &[&Node]) -> O
                 0 => present + 1,
                 1 => present.saturating_sub(1),
                 2 => present * 2 + 1,
-                _ => [255u64, 65536, 1 << 32, 1 << 62, u64::MAX][(a / 4) % 5],
+                // 2^32..2^40 (a pre-sizing decoder would abort the process, not panic) is left to the isolated probes
+                _ => [255u64, 65536, 1 << 62, u64::MAX][(a / 4) % 4],
             };
             let mut out = vec![];
             head(&mut out, if is_map { 5 } else { 4 }, declared);
